@@ -22,7 +22,15 @@ def main():
             print("REPLAY " + json.dumps(dict(reproduced=None, info="could not parse the counterexample arguments: %s"
                                               % w.get("call_text"))))
             return
-        ok, info = f(**args)
+        def unjson(v):
+            if isinstance(v, dict) and set(v) == {"__bytes__"}:
+                return bytes.fromhex(v["__bytes__"])
+            if isinstance(v, list):
+                return [unjson(x) for x in v]
+            if isinstance(v, dict):
+                return {k: unjson(x) for k, x in v.items()}
+            return v
+        ok, info = f(**unjson(args))
         print("REPLAY " + json.dumps(dict(reproduced=ok, info=str(info)[:600])))
     except Exception as ex:
         print("REPLAY " + json.dumps(dict(reproduced=None, info="replay driver raised %s: %s | %s" % (
